@@ -21,6 +21,7 @@ CONSTANTS
   CHAIN = FALSE
   WILD = FALSE
   FIXMODEL = "coded_float"
+  ANYRATIO = FALSE
   BASEMOD = 2
   EMIT = FALSE
 INVARIANT InvShape
